@@ -17,6 +17,7 @@
   multi-exon, origin-spanning), all query locations and all histories — no bound on sizes.
 -/
 import ASV.Proofs.LookupValid
+import ASV.Proofs.LookupDefs
 import ASV.Proofs.GeneFunctions
 namespace ASV.C08
 open ASV ASV.Lookup
@@ -418,7 +419,7 @@ theorem sideloaded_defines_nothing (len : Int) (ops : List Op) (r : Rec) (hok : 
   rw [List.eq_nil_iff_forall_not_mem]
   intro gid hm
   rw [mem_definition] at hm
-  obtain ⟨g, _, d', ⟨s, hl⟩, hdef, hx⟩ := inv.defsSound _ hm
+  obtain ⟨g, _, d', ⟨s, hl⟩, hdef, hx⟩ := inv.defsSound trivial _ hm
   injection hx with h1 _
   obtain ⟨_, a', ha', hd'⟩ := hl.contained
   obtain ⟨_, _, _, e4⟩ := hok.ids a' ha' a ha d' hd' d hd h1.symm
@@ -502,7 +503,7 @@ theorem get_cds_features_fresh (len : Int) (ops : List Op) (r' : Rec) (hok : ∀
   obtain ⟨r, hr, hs⟩ := run_snoc hrun
   simp only [step, pure, Except.pure] at hs
   injection hs with hs; subst hs
-  exact ⟨r, hr, (InvCore.peekCds (L := liveAfter ops) (ever := opsAreas ops) (run_inv hok hr).cache).2.2⟩
+  exact ⟨r, hr, (InvCore.peekCds (S := True) (L := liveAfter ops) (ever := opsAreas ops) (run_inv hok hr).cache).2.2⟩
 
 /-- `collection.cds_children` after any history returns the collection's current gene list and the current
     contents of its three sections (the dirty flags of the four caches are set whenever they must be) -/
@@ -563,6 +564,97 @@ theorem children_index_error (len : Int) (ops : List Op) (aid gid : Nat) (r : Re
   cases hf : indexIn gid ((peekRegen r aid).children aid) with
   | none => simp [throw, throwThe, MonadExceptOf.throw]
   | some i => simp [pure, Except.pure]
+
+/-! ### 8c  histories in which genes are re-annotated at any time (`runLoose`)
+
+An annotation rewrite of a gene that collections already list (refused by `run`, see `reannotation_model_limit`)
+touches no relation other than — later, through re-evaluation — the definition sets.  Everything else the strict
+history theorems say holds over `runLoose` histories as well. -/
+
+/-- the rewrite itself changes no relation at all: gene lists, section lists, definition sets, back links, caches and
+    the record's collection lists are untouched; only the gene's core products change -/
+theorem reannotation_touches_no_relation (r : Rec) (gid : Nat) (cs : List String) :
+    (setCoresAny r gid cs).members = r.members ∧ (setCoresAny r gid cs).sections = r.sections ∧
+    (setCoresAny r gid cs).defs = r.defs ∧ (setCoresAny r gid cs).regionOf = r.regionOf ∧
+    (setCoresAny r gid cs).regions = r.regions ∧ (setCoresAny r gid cs).protos = r.protos ∧
+    (setCoresAny r gid cs).cands = r.cands ∧ (setCoresAny r gid cs).subs = r.subs ∧
+    (setCoresAny r gid cs).log = r.log ∧ (setCoresAny r gid cs).genes = r.genes.map (recore gid cs) :=
+  ⟨rfl, rfl, rfl, rfl, rfl, rfl, rfl, rfl, rfl, rfl⟩
+
+/-- `genes_stay_sorted` / `lists_are_live` over `runLoose` histories -/
+theorem loose_genes_and_lists (len : Int) (ops : List Op) (r : Rec) (hok : ∀ op ∈ ops, OpOK op)
+    (hrun : runLoose len ops = .ok r) :
+    Sorted r.genes ∧ GenesOK r.genes ∧ (∀ g, g ∈ r.genes ↔ g ∈ (liveAfter ops).genes) ∧
+    r.genes.Pairwise (fun a b => a.id ≠ b.id) ∧
+    r.regions = (liveAfter ops).regions ∧ r.protos = (liveAfter ops).protos ∧
+    r.cands = (liveAfter ops).cands ∧ r.subs = (liveAfter ops).subs := by
+  have inv := (runLoose_inv hok hrun).core
+  exact ⟨inv.sorted, inv.ok, inv.genesLive, inv.ids, inv.regionsEq, inv.protosEq, inv.candsEq, inv.subsEq⟩
+
+/-- `area_children_exact` over `runLoose` histories: every collection in the record and every child of one lists
+    exactly the genes its location contains, however often and whenever genes were re-annotated -/
+theorem loose_area_children_exact (len : Int) (ops : List Op) (r : Rec) (hok : HistoryOK ops)
+    (hrun : runLoose len ops = .ok r) (a : AreaT) (ha : a ∈ (liveAfter ops).areas) (d : AreaT) (hd : d ∈ nodes a)
+    (gid : Nat) : gid ∈ r.children d.id ↔ gid ∈ specChildren r.genes d :=
+  children_exact_of_inv (len := len) (runLoose_inv hok.opOK hrun).core hok a ha d hd gid
+
+/-- `cds_region_unique` over `runLoose` histories -/
+theorem loose_cds_region_unique (len : Int) (ops : List Op) (r : Rec) (hok : ∀ op ∈ ops, OpOK op)
+    (hrun : runLoose len ops = .ok r) (g : Gene) (hg : g ∈ r.genes) :
+    (∀ a ∈ r.regions, specContained g.loc a.loc = true → r.regionOfGene g.id = some a.id) ∧
+    ((∀ a ∈ r.regions, specContained g.loc a.loc = false) → r.regionOfGene g.id = none) ∧
+    (∀ a ∈ r.regions, ∀ b ∈ r.regions, specContained g.loc a.loc = true → specContained g.loc b.loc = true → a = b) := by
+  have inv := (runLoose_inv hok hrun).core
+  have hle := gene_le (inv.ok g hg)
+  obtain ⟨h1, h2⟩ := inv.regionPtr g hg
+  refine ⟨?_, ?_, ?_⟩
+  · intro a ha hc; exact h1 a ha (by rw [containedBy_eq_spec hle]; exact hc)
+  · intro hn; exact h2 (fun a ha => by rw [containedBy_eq_spec hle]; exact hn a ha)
+  · intro a ha b hb hca hcb
+    exact containing_unique inv.disjoint inv.regionQ (inv.ok g hg) ha hb (by rw [containedBy_eq_spec hle]; exact hca)
+      (by rw [containedBy_eq_spec hle]; exact hcb)
+
+/-- `region_sections_partition` and `sections_cover_children` over `runLoose` histories -/
+theorem loose_sections (len : Int) (ops : List Op) (r : Rec) (hok : HistoryOK ops) (hrun : runLoose len ops = .ok r) :
+    (∀ a ∈ r.regions, ∀ s gid, gid ∈ r.section a.id s ↔
+      ∃ g ∈ r.genes, g.id = gid ∧ specContained g.loc a.loc = true ∧ specSection a.loc g.loc = s) ∧
+    (∀ aid gid, gid ∈ r.children aid ↔ ∃ s, gid ∈ r.section aid s) := by
+  have inv := (runLoose_inv hok.opOK hrun).core
+  refine ⟨fun a ha s gid => region_sections_exact_of_inv (len := len) inv hok a ha s gid, fun aid gid => ?_⟩
+  rw [mem_children, inv.cover]
+  simp only [mem_section]
+
+/-- the caches stay right over `runLoose` histories: whatever is marked clean holds the live value (so
+    `get_cds_features` and `cds_children` return live values after any such history) -/
+theorem loose_caches_fresh (len : Int) (ops : List Op) (r : Rec) (hok : ∀ op ∈ ops, OpOK op)
+    (hrun : runLoose len ops = .ok r) (aid : Nat) :
+    (peekCds r).log = r.log ++ [[r.genes.map (·.id)]] ∧
+    (peekArea r aid).log = r.log ++ [[r.children aid, r.section aid .pre, r.section aid .cross, r.section aid .post]] := by
+  have c := (runLoose_inv hok hrun).cache
+  exact ⟨(InvCore.peekCds (S := False) (L := liveAfter ops) (ever := opsAreas ops) c).2.2, (peekArea_spec c aid).2.2⟩
+
+/-- a definition set never holds a gene the protocluster does not list — also over `runLoose` histories -/
+theorem loose_definition_is_listed (len : Int) (ops : List Op) (r : Rec) (hok : ∀ op ∈ ops, OpOK op)
+    (hrun : runLoose len ops = .ok r) (aid gid : Nat) (h : gid ∈ r.definition aid) : gid ∈ r.children aid := by
+  have inv := (runLoose_inv hok hrun).core
+  rw [mem_definition] at h
+  rw [mem_children]
+  exact inv.defsSub _ h
+
+/-- FULL STATEMENT (not proved yet, executed on every generated history):
+    `∀ ops, HistoryOK ops → runLoose len ops = .ok r → ∀ x, x ∈ r.defs ↔ x ∈ specDefsAfter ops`.
+    Proved here: the `add_cds_feature` step of that induction — in any `runLoose` (or strict) history, adding a gene
+    makes exactly the (protocluster, gene) pairs defining that the spec's replay (`defsStep`, `meetPairs`) adds for
+    that call.  Missing: the same for the `add_<area>` step and for regions re-created by a clearing call (both go
+    through `addFound`; the lemma needed is `down_defines_iff` applied under `mem_within`), and the induction. -/
+theorem defs_match_replay_add_cds_step_partial (len : Int) (ops : List Op) (r r' : Rec) (g : Gene) (hok : HistoryOK (ops ++ [.cds g]))
+    (hrun : runLoose len ops = .ok r) (hstep : addCds r g = .ok r') (x : Nat × Nat) :
+    x ∈ r'.defs ↔ x ∈ r.defs ∨ x ∈ meetPairs [g] (liveAfter ops).areas := by
+  have hok' : ∀ op ∈ ops, OpOK op := fun op hop => hok.opOK op (List.mem_append.2 (Or.inl hop))
+  have inv := (runLoose_inv hok' hrun).core
+  have hin : ∀ a ∈ opsAreas ops, KidsInside a := fun a ha =>
+    hok.inside a (by simp only [opsAreas, List.flatMap_append, List.mem_append]; exact Or.inl ha)
+  exact addCds_defs_match inv hin g (hok.opOK (.cds g) (by simp)) hstep x
 
 /-! ### 9  build-order independence (histories of adding calls) -/
 
@@ -662,6 +754,15 @@ example : ((runLoose 400 [.cds { id := 0, loc := .simple ⟨100, 160, .fwd⟩ },
       .area (.mk 300 .cand (.simple ⟨50, 350, .fwd⟩) (.simple ⟨50, 350, .fwd⟩) ""
         [.mk 100 .proto (.simple ⟨50, 350, .fwd⟩) (.simple ⟨90, 300, .fwd⟩) "a" []])])
     = (some [0], [(100, 0)]) := by
+  decide +kernel
+
+/-- a `runLoose` history the strict `run` refuses: the gene is re-annotated after the subregion listed it; the
+    subregion's list and sections are as the loose theorems say -/
+example : ((run 1000 [.cds (g 0 910 920), .area (.mk 200 .sub (.simple ⟨900, 1000, .fwd⟩) (.simple ⟨0, 1, .fwd⟩) "" []),
+      .setCores 0 ["x"]]).toOption.isNone,
+    (runLoose 1000 [.cds (g 0 910 920), .area (.mk 200 .sub (.simple ⟨900, 1000, .fwd⟩) (.simple ⟨0, 1, .fwd⟩) "" []),
+      .setCores 0 ["x"]]).toOption.map (fun r => (r.children 200, r.section 200 .post, r.genes.map (·.cores))))
+    = (true, some ([0], [0], [["x"]])) := by
   decide +kernel
 
 end ASV.C08
